@@ -84,7 +84,16 @@ def gen_commands(rnd, n_per):
 
 
 def payload_bytes(rnd, n, cls=None):
-    cls = cls or rnd.choice(("random", "random", "ff", "00", "7f80", "fe"))
+    cls = cls or rnd.choice(("random", "random", "ff", "00", "7f80", "fe", "aa55"))
+    if cls == "aa55":           # the frame-header byte pair inside the payload
+        b = bytearray(rnd.randrange(256) for _ in range(n))
+        for _ in range(1 + n // 16):
+            if n >= 2:
+                k = rnd.randrange(n - 1)
+                b[k:k + 2] = b"\xaa\x55"
+        if n >= 2 and rnd.random() < 0.3:
+            b = bytearray(b"\xaa\x55" * (n // 2 + 1))[:n]
+        return bytes(b)
     if cls == "ff":
         return b"\xff" * n
     if cls == "00":
@@ -116,7 +125,7 @@ def acceptor_desc(d):
     return d
 
 
-def mutations(base, other, rnd, n_havoc):
+def mutations(base, other, rnd, n_havoc, cmd_desc=None):
     """(class, bytes) pairs derived from a valid frame."""
     yield "valid", base
     for k in range(len(base)):
@@ -147,6 +156,20 @@ def mutations(base, other, rnd, n_havoc):
             b = bytearray(base[:cut] + other[cut:])
         yield "havoc", bytes(b)
     yield "foreign", other
+    # self-consistent frames of the WRONG payload length (own byte count, own correct checksum)
+    if cmd_desc is not None and cmd_desc.get("kind") == "read" and cmd_desc["framing"] in ("rtu", "tcp"):
+        c = cmd_desc["count"]
+        for L in sorted({max(0, 2 * c - 2), max(0, 2 * c - 1), 2 * c + 1, 2 * c + 2, rnd.randrange(0, 251), 1, 0}):
+            if L == 2 * c or L > 250:
+                continue
+            pl = bytes(rnd.randrange(256) for _ in range(L))
+            if cmd_desc["framing"] == "rtu":
+                body = bytes([cmd_desc["comm"], 3, L]) + pl
+                crc = rc.crc16(body)
+                yield "wrong-length-consistent", b"\xaa\x55" + body + bytes([crc & 0xFF, crc >> 8])
+            else:
+                pdu = bytes([cmd_desc["comm"], 3, L]) + pl
+                yield "wrong-length-consistent", b"\x00\x07\x00\x00" + len(pdu).to_bytes(2, "big") + pdu
     for n in (0, 1, 4, 5, 8, 9, 10, 12, rnd.randrange(300), rnd.randrange(300)):
         yield "garbage", bytes(rnd.randrange(256) for _ in range(n))
 
@@ -187,7 +210,7 @@ def direct_part(spec, part):
             d2 = dict(d, rtype="01FF", kind="raw", cmdhex="01ff00")
         other = valid_answer(d2, rnd)
         ad = acceptor_desc(d)
-        for cls, data in mutations(base, other, rnd, spec["havoc"]):
+        for cls, data in mutations(base, other, rnd, spec["havoc"], d):
             v = verdict(g, cmd, data)
             part.evaluations += 1
             part.count("verdict_" + v.split(":")[0])
@@ -242,7 +265,7 @@ def transport_part(spec, part):
         base = valid_answer(d, rnd)
         d2 = dict(d, reg=(d.get("reg", 0) + 3) & 0xFFFF) if framing != "aa55" else dict(d, rtype="0189")
         other = valid_answer(d2, rnd)
-        muts = [m for m in mutations(base, other, rnd, 12) if m[0] != "valid" and len(m[1]) > 0]
+        muts = [m for m in mutations(base, other, rnd, 12, d) if m[0] != "valid" and len(m[1]) > 0]
         frames = [rnd.choice(muts)[1] for _ in range(3)]
         sc = {"transport": "tcp" if framing == "tcp" else "udp", "framing": framing, "keep_alive": rnd.random() < 0.5,
               "T": 1, "R": 2, "frames": [f.hex() for f in frames], "tasks": [{"start": 0.0, "steps": [step]}]}
